@@ -54,8 +54,8 @@ CLAIMS = {
             'static analysis: storage-class and effect audit over the type-resolved AST (who-may-write / who-may-call rules)'),
     'C19': ('other',
             'Structural necessary conditions; linearizability under all interleavings is declined. On both compilations of Cache.h (the atomic one via a driver TU): record typestate (no access after publish), conservation of records after every operation, '
-            'exhaustive single-threaded sequences up to length 7 (N=4) / from fills 0,1,31,32 (N=32) against a bounded-LIFO model, CAS-loop shape (syntactic) and one complete concurrent operation interposed before the first or second exchange at every fill level 0..N, judged against what a sequential pool allows.',
-            'static analysis: local typestate and conservation by abstract interpretation with summarised atomics; syntactic CAS-loop rule'),
+            'exhaustive single-threaded sequences up to length 7 (N=4) / from fills 0,1,31,32 (N=32) against a bounded-LIFO model, and sequences of up to 3 (quick) / 4 (thorough) operations of other threads interposed before the first or second exchange of an operation at every fill level 0..N - one of them possibly suspended before its own second exchange and completing afterwards - judged against what a sequential pool allows (nothing handed out twice, capacity respected, records partitioned between the two lists, draining returns what was stored).',
+            'static analysis: local typestate and conservation by abstract interpretation with summarised atomics; enumerated interposition of other threads\' operations at the exchange points'),
     'C06': ('proof',
             'All 35 plane-rotation kernels (917 slot tables) are compared with R^dagger A R as trigonometric polynomials modulo sin^2+cos^2=1; '
             'the rotation sequences of RotateToB0/B1 are compared with the factor order of GetTransformationMatrix, each factor with the plane rotation '
